@@ -29,7 +29,9 @@ Emit == DoEmit => PrintT(ToJson([f |-> "json", s |-> Join(s),
 Values == {[t |-> "{}", k |-> "obj"], [t |-> "{\"a\":1}", k |-> "obj"], [t |-> "{\"a\":{\"b\":[1,\"x\"]}}", k |-> "obj"],
            [t |-> "[1]", k |-> "arr"], [t |-> "[]", k |-> "arr"], [t |-> "[{\"a\":1},2]", k |-> "arr"],
            [t |-> "null", k |-> "other"], [t |-> "1", k |-> "other"], [t |-> "\"s\"", k |-> "other"], [t |-> "true", k |-> "other"],
-           [t |-> "{\"a\":", k |-> "bad"], [t |-> "}", k |-> "bad"], [t |-> "{a:1}", k |-> "bad"], [t |-> "[1", k |-> "bad"]}
+           [t |-> "{\"a\":", k |-> "bad"], [t |-> "}", k |-> "bad"], [t |-> "{a:1}", k |-> "bad"], [t |-> "[1", k |-> "bad"],
+           \* white space for Unicode / Go, but not for JSON (% stands for form feed, ` for U+00A0): not a JSON text
+           [t |-> "%{\"a\":1}", k |-> "bad"], [t |-> "`[1]", k |-> "bad"], [t |-> "%{}", k |-> "bad"]}
 Wss == {"", " ", "\n\t"}
 Trailers == {"", "x", "{\"b\":2}", "}"}
 Inputs == {[text |-> w1 \o v.t \o w2 \o tr, kind |-> v.k, lead |-> w1 # "", trail |-> tr # ""] : v \in Values, w1 \in Wss, w2 \in Wss, tr \in Trailers}
